@@ -914,6 +914,20 @@ static void iauth_read(evutil_socket_t fd, short events, void *iauth_in_v)
             /* id is always -1 with current ircu. */
             parse_info_request(argc, argv);
             break;
+#ifdef IAUTHD_C_VERIF
+        case '!':
+            /* Verification hook: "<id> ! timeout" runs the request's
+             * one-shot timeout handler exactly as libevent would when
+             * the timer expires, at a chosen point between two input
+             * lines.  No effect without a pending timer.
+             */
+            if (req && argc > 1 && !strcmp(argv[1], "timeout")
+                && req->timeout && evtimer_pending(req->timeout, NULL)) {
+                evtimer_del(req->timeout);
+                iauth_timeout(-1, EV_TIMEOUT, req);
+            }
+            break;
+#endif
         }
 
         /* We are responsible for freeing the line. */
